@@ -23,7 +23,14 @@ package rules
 // into the pool's atomic.Value; also the policy -> implementation resolution used by the others),
 // c04_shared.go (R-C04-3, round-3 seeded a: no call on stateful objects held in balancer fields or
 // package variables), c04_watch.go (R-C04-7, round-3 seeded b: watchServers always starts the watch
-// goroutine; the watch loop applies every received report until the pool is closed).
+// goroutine; the watch loop applies every received report until the pool is closed),
+// c04_roles.go (robustness pass: publish / watch / apply functions of ServerPool resolved by role),
+// c04_discovery.go (R-C04-7 discovery fallback restated over the reach of the apply function:
+// builder helper, bool tag helper / membership flag, extracted fallback helper, self-publishing).
+// Robustness pass: the rules see through named locals, index/3-clause loops, named results with
+// bare return, method values, closures and wrappers around ChooseServer ((*Server, bool) included),
+// bounds passed as parameters of unexported helpers, bool helpers such as empty(), functions moved
+// to other files and renamed unexported functions/fields.
 //
 // Tested on the tree this was developed against (scratch worktree @ ce8b88e): exit 1 with
 // exactly one violation,
@@ -82,7 +89,6 @@ import (
 	"go/types"
 	"strings"
 
-	"golang.org/x/tools/go/cfg"
 	"golang.org/x/tools/go/packages"
 
 	"verif/internal/core"
@@ -115,6 +121,8 @@ type c04Info struct {
 	byPolicy    map[string]*c04Impl
 	byMethod    map[*types.Func]*c04Impl
 	owner       map[*types.Var]string // field -> "pkg/rel.Struct"
+	roles       *c04Roles
+	newLB       *types.Func           // NewLoadBalancer
 	pool        *types.Struct         // ServerPool
 	policyImpls map[string][]*c04Impl // every implementation a policy can yield
 	cases       []c04PolicyCase       // case clauses of NewLoadBalancer's policy switch
@@ -145,6 +153,7 @@ func c04(c *core.Ctx) string {
 	if info == nil {
 		return "anchors unresolved"
 	}
+	info.roles = c04ResolveRoles(c)
 	c04NilGuard(c, info)
 	c04Choose(c, info)
 	c04Bounds(c, info)
@@ -263,6 +272,7 @@ func c04Resolve(c *core.Ctx) *c04Info {
 		return nil
 	}
 	npkg, nfd := c.Prog.FuncDecl(c04pkg, "", "NewLoadBalancer")
+	info.newLB, _ = npkg.TypesInfo.Defs[nfd.Name].(*types.Func)
 	cases, outside, sw := c04PolicyCases(c, npkg, nfd)
 	if sw == nil {
 		c.Errorf("anchor: NewLoadBalancer has no switch over the policy")
@@ -298,8 +308,8 @@ func c04Resolve(c *core.Ctx) *c04Info {
 					}
 				}
 			}
-			if len(pc.set.types) > 1 {
-				ambiguous[p] = true // reported as a violation by c04OneType; policy-specific rules are skipped
+			if len(pc.set.types) != 1 {
+				ambiguous[p] = true // several / no / unknown types: judged by c04OneType; policy-specific rules are skipped
 			}
 			if impl != nil {
 				info.byPolicy[p] = impl
@@ -375,6 +385,78 @@ type c04Facts struct {
 	defs    map[types.Object]ast.Expr
 	unsafe  map[types.Object]bool // assigned more than once / address taken
 	byCanon map[string][]ast.Expr
+	// extra renderings per canonical form (facts that arrive from inlined helpers speak about
+	// expressions that need not occur in the function itself, e.g. len(lb.Servers))
+	extra map[string][]string
+}
+
+// withRecvList registers the rendering of len(<recv>.<list>) for the canonical len(§list(recv)).
+func (q *c04Facts) withRecvList(fd *ast.FuncDecl) *c04Facts {
+	if q.list == nil || fd == nil || fd.Recv == nil || len(fd.Recv.List) != 1 || len(fd.Recv.List[0].Names) != 1 {
+		return q
+	}
+	r := q.f.Render(fd.Recv.List[0].Names[0])
+	if q.extra == nil {
+		q.extra = map[string][]string{}
+	}
+	k := "len(§list(" + r + "))"
+	q.extra[k] = append(q.extra[k], "len("+r+"."+q.list.Name()+")")
+	// Facts learnt inside an inlined same-package helper (`if lb.empty()`, `if none(lb.Servers)`)
+	// are phrased in the helper's vocabulary. Where every call of a helper in this function is
+	// given the receiver (resp. the receiver's list), the helper's receiver/parameter denotes the
+	// same (immutable) list, so its rendering is registered as well.
+	recv := q.f.Info.Defs[fd.Recv.List[0].Names[0]]
+	type bindInfo struct {
+		render string
+		ok     bool
+	}
+	binds := map[string]*bindInfo{} // helper parameter position -> rendering
+	for _, call := range calls(fd.Body, true) {
+		fo, _ := q.f.Callee(call).(*types.Func)
+		if fo == nil || fo.Pkg() != q.f.Pkg.Types {
+			continue
+		}
+		hd := declOf(q.f.Pkg, fo)
+		if hd == nil {
+			continue
+		}
+		note := func(key, render string, same bool) {
+			b := binds[key]
+			if b == nil {
+				b = &bindInfo{render: render, ok: true}
+				binds[key] = b
+			}
+			if !same {
+				b.ok = false
+			}
+		}
+		if hd.Recv != nil && len(hd.Recv.List) == 1 && len(hd.Recv.List[0].Names) == 1 {
+			if sel, ok := ast.Unparen(call.Fun).(*ast.SelectorExpr); ok {
+				id, isID := ast.Unparen(sel.X).(*ast.Ident)
+				note(fo.FullName()+"#recv", "len("+q.f.Render(hd.Recv.List[0].Names[0])+"."+q.list.Name()+")", isID && c04ObjOf(q.f.Info, id) == recv)
+			}
+		}
+		i := 0
+		for _, fld := range hd.Type.Params.List {
+			for _, name := range fld.Names {
+				if i < len(call.Args) {
+					if tv, ok := q.f.Info.Types[call.Args[i]]; ok && tv.Type != nil && types.Identical(tv.Type, q.list.Type()) {
+						note(sprintf("%s#%d", fo.FullName(), i), "len("+q.f.Render(name)+")", q.canon(call.Args[i], 0) == "§list("+r+")")
+					}
+				}
+				i++
+			}
+			if len(fld.Names) == 0 {
+				i++
+			}
+		}
+	}
+	for _, b := range binds {
+		if b.ok {
+			q.extra[k] = append(q.extra[k], b.render)
+		}
+	}
+	return q
 }
 
 func c04NewFacts(f *flow.Func, list *types.Var) *c04Facts {
@@ -576,6 +658,11 @@ func (q *c04Facts) positiveK(st *flow.State, k string) bool {
 			return true
 		}
 	}
+	for _, r := range q.extra[k] {
+		if st.Is("lt:0<"+r, flow.True) || st.Is("lt:"+r+"<1", flow.False) || st.Is("eq:"+r+"==0", flow.False) {
+			return true
+		}
+	}
 	return false
 }
 
@@ -586,6 +673,11 @@ func (q *c04Facts) zeroK(st *flow.State, k string) bool {
 			return true
 		}
 		if q.nonneg(x, k) && (st.Is("lt:0<"+r, flow.False) || st.Is("lt:"+r+"<1", flow.True)) {
+			return true
+		}
+	}
+	for _, r := range q.extra[k] {
+		if st.Is("eq:"+r+"==0", flow.True) || st.Is("lt:0<"+r, flow.False) || st.Is("lt:"+r+"<1", flow.True) {
 			return true
 		}
 	}
@@ -675,54 +767,195 @@ type c04Site struct {
 	fd   *ast.FuncDecl
 	lit  *ast.FuncLit // innermost literal containing the call (nil = the declaration)
 	call *ast.CallExpr
+	// lifted sites: the call is to a same-module wrapper that returns the chosen server as its
+	// k-th result; alias are the nil-fact keys of the wrapper's returned variables
+	k       int
+	alias   []string
+	wrapper *types.Func
+	via     string
+	depth   int
+}
+
+// c04ChooseCall: call invokes ChooseServer directly or through a method value held in a local
+// (`choose := lb.ChooseServer; choose(req)`).
+func c04ChooseCall(info *c04Info, f *flow.Func, body ast.Node, call *ast.CallExpr) bool {
+	if c04IsChoose(info, f, call) {
+		return true
+	}
+	id, ok := ast.Unparen(call.Fun).(*ast.Ident)
+	if !ok {
+		return false
+	}
+	v, ok := c04ObjOf(f.Info, id).(*types.Var)
+	if !ok || v.IsField() || v.Pkg() == nil || v.Parent() == v.Pkg().Scope() {
+		return false
+	}
+	n, isMV := 0, false
+	ast.Inspect(body, func(x ast.Node) bool {
+		as, ok := x.(*ast.AssignStmt)
+		if !ok {
+			return true
+		}
+		for i, l := range as.Lhs {
+			lid, ok := l.(*ast.Ident)
+			if !ok || c04ObjOf(f.Info, lid) != types.Object(v) {
+				continue
+			}
+			n++
+			if len(as.Lhs) == len(as.Rhs) {
+				if sel, ok := ast.Unparen(as.Rhs[i]).(*ast.SelectorExpr); ok {
+					if sl := f.Info.Selections[sel]; sl != nil && sl.Kind() == types.MethodVal {
+						if m, _ := sl.Obj().(*types.Func); m != nil && (m == info.choose || info.byMethod[m] != nil) {
+							isMV = true
+						}
+					}
+				}
+			}
+		}
+		return true
+	})
+	return n == 1 && isMV
 }
 
 func c04NilGuard(c *core.Ctx, info *c04Info) {
-	var sites []c04Site
-	eachFunc(c, func(pkg *packages.Package, fd *ast.FuncDecl) {
-		f := flow.NewFunc(pkg, fd)
-		var lits []*ast.FuncLit
-		var walk func(n ast.Node)
-		walk = func(n ast.Node) {
-			ast.Inspect(n, func(x ast.Node) bool {
-				switch t := x.(type) {
-				case *ast.FuncLit:
-					if x != n {
-						lits = append(lits, t)
-						walk(t.Body)
-						lits = lits[:len(lits)-1]
-						return false
-					}
-				case *ast.CallExpr:
-					if c04IsChoose(info, f, t) {
-						s := c04Site{pkg: pkg, fd: fd, call: t}
-						if len(lits) > 0 {
-							s.lit = lits[len(lits)-1]
+	// collect call sites of pred over the module
+	collect := func(pred func(f *flow.Func, fd *ast.FuncDecl, call *ast.CallExpr) bool) []c04Site {
+		var sites []c04Site
+		eachFunc(c, func(pkg *packages.Package, fd *ast.FuncDecl) {
+			f := flow.NewFunc(pkg, fd)
+			var lits []*ast.FuncLit
+			var walk func(n ast.Node)
+			walk = func(n ast.Node) {
+				ast.Inspect(n, func(x ast.Node) bool {
+					switch t := x.(type) {
+					case *ast.FuncLit:
+						if x != n {
+							lits = append(lits, t)
+							walk(t.Body)
+							lits = lits[:len(lits)-1]
+							return false
 						}
-						sites = append(sites, s)
+					case *ast.CallExpr:
+						if pred(f, fd, t) {
+							s := c04Site{pkg: pkg, fd: fd, call: t}
+							if len(lits) > 0 {
+								s.lit = lits[len(lits)-1]
+							}
+							sites = append(sites, s)
+						}
 					}
-				}
-				return true
-			})
-		}
-		walk(fd.Body)
-	})
-	if !c.RequireCount("R-C04-1", "ChooseServer call sites", len(sites), 2) {
-		return
+					return true
+				})
+			}
+			walk(fd.Body)
+		})
+		return sites
 	}
+	work := collect(func(f *flow.Func, fd *ast.FuncDecl, call *ast.CallExpr) bool {
+		return c04ChooseCall(info, f, fd.Body, call)
+	})
+	judged := 0
 	perDecl := map[string]int{}
-	for _, s := range sites {
+	lifted := map[*types.Func]bool{}
+	for len(work) > 0 {
+		s := work[0]
+		work = work[1:]
 		name := declName(s.pkg, s.fd)
 		perDecl[name]++
 		cons := name + "|ChooseServer result"
+		if s.via != "" {
+			cons += " (via " + s.via + ")"
+		}
 		if perDecl[name] > 1 {
 			cons += sprintf(" #%d", perDecl[name])
 		}
-		c04NilGuardSite(c, info, s, cons)
+		escapes, isWrapper := c04NilGuardSite(c, info, s, cons)
+		if !isWrapper {
+			judged++
+			continue
+		}
+		// a closure held in a local (`choose := func() *Server {…}; svr := choose()`): judge its calls
+		if s.lit != nil && s.depth < 2 {
+			if v := c04LitVar(s.pkg, s.fd, s.lit); v != nil {
+				for k := range escapes {
+					callers := collect(func(f *flow.Func, fd *ast.FuncDecl, call *ast.CallExpr) bool {
+						id, ok := ast.Unparen(call.Fun).(*ast.Ident)
+						return ok && fd == s.fd && f.Info.Uses[id] == types.Object(v)
+					})
+					for _, cs := range callers {
+						cs.k, cs.via, cs.depth = k, "closure "+v.Name(), s.depth+1
+						work = append(work, cs)
+					}
+				}
+				continue
+			}
+		}
+		// the function hands the chosen server to its callers: judge the callers
+		wobj := c04FuncObj(s.pkg, s.fd)
+		if wobj == nil || s.lit != nil || s.depth >= 2 {
+			c.Undecide("R-C04-1", cons, pos(c, s.call), "the chosen server is returned to the caller through a function literal or a chain of wrappers; the nil test would have to be checked further up")
+			continue
+		}
+		if lifted[wobj] {
+			continue
+		}
+		lifted[wobj] = true
+		wf := flow.NewFunc(s.pkg, s.fd)
+		for k, keys := range escapes {
+			callers := collect(func(f *flow.Func, fd *ast.FuncDecl, call *ast.CallExpr) bool {
+				return f.Callee(call) == types.Object(wobj)
+			})
+			for _, cs := range callers {
+				cs.k, cs.alias, cs.wrapper, cs.via, cs.depth = k, keys, wobj, wobj.Name(), s.depth+1
+				work = append(work, cs)
+			}
+			_ = wf
+		}
 	}
+	c.RequireCount("R-C04-1", "ChooseServer results judged at their point of use", judged, 2)
 }
 
-func c04NilGuardSite(c *core.Ctx, info *c04Info, s c04Site, cons string) {
+// c04LitVar returns the local variable a function literal is assigned to (exactly once), or nil.
+func c04LitVar(pkg *packages.Package, fd *ast.FuncDecl, lit *ast.FuncLit) *types.Var {
+	var v *types.Var
+	ast.Inspect(fd.Body, func(n ast.Node) bool {
+		as, ok := n.(*ast.AssignStmt)
+		if !ok || len(as.Lhs) != len(as.Rhs) {
+			return true
+		}
+		for i, r := range as.Rhs {
+			if ast.Unparen(r) == ast.Expr(lit) {
+				if id, ok := as.Lhs[i].(*ast.Ident); ok {
+					v, _ = c04ObjOf(pkg.TypesInfo, id).(*types.Var)
+				}
+			}
+		}
+		return true
+	})
+	if v == nil {
+		return nil
+	}
+	n := 0
+	ast.Inspect(fd.Body, func(x ast.Node) bool {
+		if as, ok := x.(*ast.AssignStmt); ok {
+			for _, l := range as.Lhs {
+				if id, ok := l.(*ast.Ident); ok && c04ObjOf(pkg.TypesInfo, id) == types.Object(v) {
+					n++
+				}
+			}
+		}
+		return true
+	})
+	if n != 1 {
+		return nil
+	}
+	return v
+}
+
+// c04NilGuardSite judges one site. It returns isWrapper=true (and, per result index, the nil-fact
+// keys of the returned variables) when the enclosing function returns the chosen server to its
+// callers instead of using it.
+func c04NilGuardSite(c *core.Ctx, info *c04Info, s c04Site, cons string) (escapes map[int][]string, isWrapper bool) {
 	f := flow.NewFunc(s.pkg, s.fd)
 	if s.lit != nil {
 		f = f.Lit(s.lit)
@@ -730,38 +963,121 @@ func c04NilGuardSite(c *core.Ctx, info *c04Info, s c04Site, cons string) {
 	pm := parentMap(s.fd.Body)
 	var v types.Object
 	var vid *ast.Ident
-	switch p := pm[s.call].(type) {
+	var top ast.Node = s.call
+	p0 := pm[top]
+	for {
+		if pe, ok := p0.(*ast.ParenExpr); ok {
+			top, p0 = pe, pm[pe]
+			continue
+		}
+		break
+	}
+	switch p := p0.(type) {
 	case *ast.AssignStmt:
-		if len(p.Rhs) == 1 && len(p.Lhs) == 1 {
-			if id, ok := p.Lhs[0].(*ast.Ident); ok && id.Name != "_" {
+		if len(p.Rhs) == 1 && s.k < len(p.Lhs) {
+			if id, ok := p.Lhs[s.k].(*ast.Ident); ok && id.Name != "_" {
 				vid, v = id, c04ObjOf(f.Info, id)
 			} else if ok {
 				c.Discharge("R-C04-1", cons, pos(c, s.call), "result discarded")
-				return
+				return nil, false
 			}
 		}
 	case *ast.ValueSpec:
-		if len(p.Values) == 1 && len(p.Names) == 1 {
-			vid, v = p.Names[0], c04ObjOf(f.Info, p.Names[0])
+		if len(p.Values) == 1 && s.k < len(p.Names) {
+			vid, v = p.Names[s.k], c04ObjOf(f.Info, p.Names[s.k])
 		}
 	case *ast.ExprStmt:
 		c.Discharge("R-C04-1", cons, pos(c, s.call), "result discarded")
-		return
+		return nil, false
 	case *ast.ReturnStmt:
-		c.Undecide("R-C04-1", cons, pos(c, s.call), "the chosen server is returned to the caller; the nil test would have to be checked at the callers")
-		return
+		// `return lb.ChooseServer(req)` / `return sp.pick(req)`: a pure wrapper
+		if s.wrapper == nil {
+			for i, r := range p.Results {
+				if ast.Unparen(r) == ast.Expr(s.call) {
+					return map[int][]string{i: nil}, true
+				}
+			}
+		}
+		if s.lit == nil && s.wrapper != nil && len(p.Results) == 1 {
+			// return of a multi-value wrapper call: same result positions
+			return map[int][]string{s.k: s.alias}, true
+		}
+		c.Undecide("R-C04-1", cons, pos(c, s.call), "the chosen server is returned to the caller in a form the rule cannot follow")
+		return nil, false
 	case *ast.BinaryExpr:
 		// compared in place (e.g. `lb.ChooseServer(r) == nil`): no use of the value
 		if (p.Op == token.EQL || p.Op == token.NEQ) && (f.Info.Types[p.X].IsNil() || f.Info.Types[p.Y].IsNil()) {
 			c.Discharge("R-C04-1", cons, pos(c, s.call), "result only compared with nil")
-			return
+			return nil, false
 		}
 	}
 	if v == nil {
 		c.Violate("R-C04-1", cons, pos(c, s.call), "the result of ChooseServer is used in place without a nil test: for an empty server list the balancer returns nil and the proxy dereferences it (panic) instead of answering 503")
-		return
+		return nil, false
 	}
 	nilKey := f.NilKey(vid)
+	// facts about the wrapper's returned variable speak about v as long as v is assigned once
+	keys := []string{nilKey}
+	if len(s.alias) > 0 {
+		n := 0
+		ast.Inspect(f.Body, func(x ast.Node) bool {
+			switch t := x.(type) {
+			case *ast.AssignStmt:
+				for _, l := range t.Lhs {
+					if id, ok := l.(*ast.Ident); ok && c04ObjOf(f.Info, id) == v {
+						n++
+					}
+				}
+			case *ast.UnaryExpr:
+				if id, ok := ast.Unparen(t.X).(*ast.Ident); ok && t.Op == token.AND && c04ObjOf(f.Info, id) == v {
+					n += 2
+				}
+			}
+			return true
+		})
+		if n == 1 {
+			keys = append(keys, s.alias...)
+		}
+	}
+	nonNil := func(st *flow.State) bool {
+		for _, k := range keys {
+			if st.Is(k, flow.False) {
+				return true
+			}
+		}
+		return false
+	}
+	isNil := func(st *flow.State) bool {
+		for _, k := range keys {
+			if st.Is(k, flow.True) {
+				return true
+			}
+		}
+		return false
+	}
+	// bare returns of v hand the server on to the callers
+	returned := map[int]bool{}
+	isReturned := func(id *ast.Ident) bool {
+		var ch ast.Node = id
+		p := pm[ch]
+		for {
+			if pe, ok := p.(*ast.ParenExpr); ok {
+				ch, p = pe, pm[pe]
+				continue
+			}
+			break
+		}
+		rs, ok := p.(*ast.ReturnStmt)
+		if !ok {
+			return false
+		}
+		for i, r := range rs.Results {
+			if ast.Node(r) == ch {
+				returned[i] = true
+			}
+		}
+		return true
+	}
 
 	isNilCmp := func(id *ast.Ident) bool {
 		var ch ast.Node = id
@@ -847,7 +1163,7 @@ func c04NilGuardSite(c *core.Ctx, info *c04Info, s c04Site, cons string) {
 				}
 				return false
 			}
-			if id, ok := x.(*ast.Ident); ok && f.Info.Uses[id] == v && !isNilCmp(id) && !shortGuarded(id, top) && !readOnlyArg(id, top) {
+			if id, ok := x.(*ast.Ident); ok && f.Info.Uses[id] == v && !isNilCmp(id) && !shortGuarded(id, top) && !readOnlyArg(id, top) && !isReturned(id) {
 				*out = append(*out, id)
 			}
 			return true
@@ -866,11 +1182,26 @@ func c04NilGuardSite(c *core.Ctx, info *c04Info, s c04Site, cons string) {
 	var bad *badUse
 	uses := 0
 	sends := 0
+	var inline func(*ast.CallExpr, *types.Func) *flow.Func
+	if s.wrapper != nil {
+		// interpret the wrapper (only) in place, so that `svr, ok := sp.pick(req); if !ok {…}` is understood
+		all := inlineSamePkg(f)
+		inline = func(call *ast.CallExpr, callee *types.Func) *flow.Func {
+			if callee != s.wrapper {
+				return nil
+			}
+			return all(call, callee)
+		}
+	}
 	res := analyze(c, f, flow.Config{
+		Inline: inline,
 		OnNode: func(st *flow.State, n ast.Node) {
+			if !contains(f.Body, n) {
+				return // a node of the inlined wrapper
+			}
 			for _, id := range usesIn(n) {
 				uses++
-				if !st.Is(nilKey, flow.False) && bad == nil {
+				if !nonNil(st) && bad == nil {
 					bad = &badUse{id, st}
 				}
 			}
@@ -900,17 +1231,17 @@ func c04NilGuardSite(c *core.Ctx, info *c04Info, s c04Site, cons string) {
 		},
 	})
 	if res == nil {
-		return
+		return nil, false
 	}
 	c.Count("R-C04-1:uses of the chosen server checked", uses)
 	c.Count("R-C04-1:send calls seen", sends)
 	if bad != nil {
 		why := "the chosen server is used here in a state where it is not known to be non-nil"
-		if bad.st.Is(nilKey, flow.True) {
+		if isNil(bad.st) {
 			why = "the chosen server is used here on the path where it is known to be nil"
 		}
 		c.Violate("R-C04-1", cons, pos(c, bad.id), why+": with an empty server list ChooseServer returns nil and the proxy panics (or sends to a nil target) instead of failing the request with 503", witness(bad.st)...)
-		return
+		return nil, false
 	}
 	// exits with the result known nil
 	wantErr := false
@@ -923,32 +1254,32 @@ func c04NilGuardSite(c *core.Ctx, info *c04Info, s c04Site, cons string) {
 	nilExits := 0
 	codes := map[string]bool{}
 	for _, ex := range res.Exits {
-		if !ex.State.Is(nilKey, flow.True) {
+		if !isNil(ex.State) {
 			continue
 		}
 		nilExits++
 		if ex.State.Is("ev:sent", flow.True) {
 			c.Violate("R-C04-1", cons, pos(c, ex.At), "a request is sent although no server was chosen (ChooseServer returned nil)", witness(ex.State)...)
-			return
+			return nil, false
 		}
 		if ex.Kind != flow.ExitReturn || !wantErr {
 			continue
 		}
 		if ex.Return == nil || len(ex.Return.Results) == 0 {
 			c.Undecide("R-C04-1", cons, pos(c, ex.At), "bare return on the nil edge: cannot read the returned error")
-			return
+			return nil, false
 		}
 		r := ast.Unparen(ex.Return.Results[len(ex.Return.Results)-1])
 		tv := f.Info.Types[r]
 		switch {
 		case tv.IsNil():
 			c.Violate("R-C04-1", cons, pos(c, ex.Return), "with no server available (ChooseServer returned nil) the function returns a nil error: the request is reported as handled although nothing was sent and no 503 is built", witness(ex.State)...)
-			return
+			return nil, false
 		case tv.Type != nil && !types.IsInterface(tv.Type):
 			if _, isPtr := tv.Type.Underlying().(*types.Pointer); isPtr && !ex.State.Is(f.NilKey(r), flow.False) {
 				if _, isAddr := r.(*ast.UnaryExpr); !isAddr {
 					c.Undecide("R-C04-1", cons, pos(c, ex.Return), "cannot decide that the error returned on the nil edge is non-nil")
-					return
+					return nil, false
 				}
 			}
 			if cl, ok := r.(*ast.CompositeLit); ok && len(cl.Elts) > 0 {
@@ -963,7 +1294,7 @@ func c04NilGuardSite(c *core.Ctx, info *c04Info, s c04Site, cons string) {
 		default:
 			if !ex.State.Is(f.NilKey(r), flow.False) {
 				c.Undecide("R-C04-1", cons, pos(c, ex.Return), "cannot decide that the error returned on the nil edge is non-nil")
-				return
+				return nil, false
 			}
 		}
 	}
@@ -971,7 +1302,18 @@ func c04NilGuardSite(c *core.Ctx, info *c04Info, s c04Site, cons string) {
 	if wantErr {
 		detail += sprintf(", all returning a non-nil error (status %s)", strings.Join(sortedKeys(codes), ","))
 	}
+	if len(returned) > 0 {
+		escapes = map[int][]string{}
+		for i := range returned {
+			escapes[i] = keys
+		}
+		if uses > 0 {
+			c.Discharge("R-C04-1", cons, pos(c, s.call), detail+"; the server is also returned to the callers (judged there)")
+		}
+		return escapes, true
+	}
 	c.Discharge("R-C04-1", cons, pos(c, s.call), detail)
+	return nil, false
 }
 
 // ----------------------------------------------------------------------------------------
@@ -981,7 +1323,7 @@ func c04Choose(c *core.Ctx, info *c04Info) {
 	for _, im := range info.impls {
 		f := flow.NewFunc(im.pkg, im.decl)
 		c.Count("functions_analysed", 1)
-		q := c04NewFacts(f, im.list)
+		q := c04NewFacts(f, im.list).withRecvList(im.decl)
 		var sites []ast.Node
 		ast.Inspect(f.Body, func(n ast.Node) bool {
 			if _, ok := n.(*ast.FuncLit); ok {
@@ -1002,7 +1344,7 @@ func c04Choose(c *core.Ctx, info *c04Info) {
 		// index sites
 		okIdx := true
 		nStates := 0
-		res := c04VisitSites(c, f, sites, flow.Config{NoHavoc: true}, func(s, top ast.Node, st *flow.State) {
+		res := c04VisitSites(c, f, sites, flow.Config{NoHavoc: true, Inline: inlineSamePkg(f)}, func(s, top ast.Node, st *flow.State) {
 			nStates++
 			if !okIdx {
 				return
@@ -1157,6 +1499,9 @@ func c04Bounds(c *core.Ctx, info *c04Info) {
 					list = im.list
 				}
 				q := c04NewFacts(f, list)
+				if ui == 0 {
+					q.withRecvList(fd)
+				}
 				var sites []ast.Node
 				for _, b := range bounds {
 					sites = append(sites, b.site)
@@ -1173,7 +1518,7 @@ func c04Bounds(c *core.Ctx, info *c04Info) {
 					accs[b.site] = &acc{}
 					byNode[b.site] = b
 				}
-				res := c04VisitSites(c, f, sites, flow.Config{NoHavoc: true}, func(s, top ast.Node, st *flow.State) {
+				res := c04VisitSites(c, f, sites, flow.Config{NoHavoc: true, Inline: inlineSamePkg(f)}, func(s, top ast.Node, st *flow.State) {
 					a := accs[s]
 					a.n++
 					if a.bad == nil && !q.positive(st, byNode[s].bound) {
@@ -1210,6 +1555,21 @@ func c04Bounds(c *core.Ctx, info *c04Info) {
 						c.Undecide("R-C04-6", cons, pos(c, b.site), "site is in a short-circuit operand; cannot evaluate its guard")
 						continue
 					}
+					// the bound is a parameter of an unexported function: decide at its call sites
+					if ui == 0 {
+						if idx := c04ParamIndex(f, fd, q, b.bound); idx >= 0 && !fd.Name.IsExported() {
+							n, badCall, badSt := c04ArgPositiveAtCalls(c, info, pkg, c04FuncObj(pkg, fd), idx)
+							if n > 0 && badCall == nil {
+								c.Discharge("R-C04-6", cons, pos(c, b.site), sprintf("%s is a parameter of %s; the argument is known positive at all %d call sites", types.ExprString(b.bound), fd.Name.Name, n))
+								continue
+							}
+							if badCall != nil {
+								c.Violate("R-C04-6", cons, pos(c, badCall),
+									sprintf("%s is a parameter of %s and the argument `%s` passed here is not known to be positive: %s", types.ExprString(b.bound), fd.Name.Name, types.ExprString(badCall.Args[idx]), map[bool]string{true: "rand.Intn panics for an argument <= 0", false: "integer division by zero"}[strings.Contains(b.role, "bound")]), witness(badSt)...)
+								continue
+							}
+						}
+					}
 					what := "integer division by zero"
 					if strings.Contains(b.role, "bound") {
 						what = "rand.Intn panics for an argument <= 0"
@@ -1235,6 +1595,85 @@ func c04Bounds(c *core.Ctx, info *c04Info) {
 	c.RequireCount("R-C04-6", "random bounds + non-constant divisors in pkg/filters/proxy", randSites+divSites, 4)
 }
 
+// c04ParamIndex: e (through conversions and stable aliases) is a parameter of fd that is never
+// assigned; returns its position in the call's argument list, or -1.
+func c04ParamIndex(f *flow.Func, fd *ast.FuncDecl, q *c04Facts, e ast.Expr) int {
+	id, ok := q.resolve(e).(*ast.Ident)
+	if !ok {
+		return -1
+	}
+	o := c04ObjOf(f.Info, id)
+	if o == nil || q.unsafe[o] {
+		return -1
+	}
+	if _, assigned := q.defs[o]; assigned {
+		return -1
+	}
+	i := 0
+	for _, fld := range fd.Type.Params.List {
+		if len(fld.Names) == 0 {
+			i++
+			continue
+		}
+		for _, n := range fld.Names {
+			if f.Info.Defs[n] == o {
+				return i
+			}
+			i++
+		}
+	}
+	return -1
+}
+
+// c04ArgPositiveAtCalls checks argument idx at every call of fo in its package.
+func c04ArgPositiveAtCalls(c *core.Ctx, info *c04Info, pkg *packages.Package, fo *types.Func, idx int) (n int, badCall *ast.CallExpr, badSt *flow.State) {
+	if fo == nil {
+		return 0, nil, nil
+	}
+	for _, file := range pkg.Syntax {
+		for _, d := range file.Decls {
+			gd, ok := d.(*ast.FuncDecl)
+			if !ok || gd.Body == nil {
+				continue
+			}
+			g := flow.NewFunc(pkg, gd)
+			var sites []ast.Node
+			for _, call := range calls(gd.Body, true) {
+				if g.Callee(call) == types.Object(fo) && idx < len(call.Args) {
+					sites = append(sites, call)
+				}
+			}
+			if len(sites) == 0 {
+				continue
+			}
+			var list *types.Var
+			if im := info.byMethod[c04FuncObj(pkg, gd)]; im != nil {
+				list = im.list
+			}
+			q := c04NewFacts(g, list).withRecvList(gd)
+			visited := map[ast.Node]int{}
+			res := c04VisitSites(c, g, sites, flow.Config{NoHavoc: true, Inline: inlineSamePkg(g, fo)}, func(s, top ast.Node, st *flow.State) {
+				visited[s]++
+				call := s.(*ast.CallExpr)
+				if badCall == nil && !q.positive(st, call.Args[idx]) {
+					badCall, badSt = call, st
+				}
+			})
+			if res == nil {
+				return 0, nil, nil
+			}
+			for _, s := range sites {
+				n++
+				if visited[s] == 0 && badCall == nil {
+					// inside a function literal or unreachable: not judged here
+					badCall = s.(*ast.CallExpr)
+				}
+			}
+		}
+	}
+	return n, badCall, badSt
+}
+
 func c04PolicyNames(im *c04Impl) string {
 	var out []string
 	for _, p := range im.policies {
@@ -1249,296 +1688,6 @@ func c04PolicyNames(im *c04Impl) string {
 func c04FuncObj(pkg *packages.Package, fd *ast.FuncDecl) *types.Func {
 	fo, _ := pkg.TypesInfo.Defs[fd.Name].(*types.Func)
 	return fo
-}
-
-// ----------------------------------------------------------------------------------------
-// R-C04-7
-
-func c04Discovery(c *core.Ctx, info *c04Info) {
-	f := fn(c, c04pkg, "ServerPool", "useService")
-	if f == nil {
-		return
-	}
-	cons := fname(c04pkg, "ServerPool", "useService")
-	creates := callsTo(f, f.Body, false, "(*"+c04pkg+".ServerPool).createLoadBalancer")
-	if !c.RequireCount("R-C04-7", "createLoadBalancer call sites in useService", len(creates), 1) {
-		return
-	}
-	specServers := structField(c, c04pkg, "ServerPoolSpec", "Servers")
-	if specServers == nil {
-		return
-	}
-	isStatic := func(e ast.Expr) bool {
-		sel, ok := ast.Unparen(e).(*ast.SelectorExpr)
-		if !ok {
-			return false
-		}
-		s := f.Info.Selections[sel]
-		return s != nil && s.Obj() == specServers
-	}
-	// the filtered list: the local []*Server variable that is appended to
-	var listVar types.Object
-	var appends []*ast.CallExpr
-	ast.Inspect(f.Body, func(n ast.Node) bool {
-		as, ok := n.(*ast.AssignStmt)
-		if !ok || len(as.Lhs) != 1 || len(as.Rhs) != 1 {
-			return true
-		}
-		call, ok := ast.Unparen(as.Rhs[0]).(*ast.CallExpr)
-		if !ok {
-			return true
-		}
-		if b, ok := f.Callee(call).(*types.Builtin); !ok || b.Name() != "append" || len(call.Args) < 2 {
-			return true
-		}
-		lid, ok1 := as.Lhs[0].(*ast.Ident)
-		aid, ok2 := ast.Unparen(call.Args[0]).(*ast.Ident)
-		if !ok1 || !ok2 || c04ObjOf(f.Info, lid) != c04ObjOf(f.Info, aid) {
-			return true
-		}
-		if tv, ok := f.Info.Types[lid]; ok && !types.Identical(tv.Type, info.listType) {
-			return true
-		}
-		o := c04ObjOf(f.Info, lid)
-		if listVar == nil {
-			listVar = o
-		}
-		if o == listVar {
-			appends = append(appends, call)
-		}
-		return true
-	})
-	if listVar == nil {
-		c.Errorf("R-C04-7: anchor: useService does not build a []*Server list with append")
-		return
-	}
-	c.RequireCount("R-C04-7", "appends to the filtered list", len(appends), 1)
-	var listIdent *ast.Ident
-	ast.Inspect(f.Body, func(n ast.Node) bool {
-		if id, ok := n.(*ast.Ident); ok && listIdent == nil && c04ObjOf(f.Info, id) == listVar {
-			listIdent = id
-		}
-		return true
-	})
-	q := c04NewFacts(f, nil)
-	lenK := "len(" + f.Render(listIdent) + ")"
-	// outermost loop around the appends = the loop over the reported instances
-	var outer ast.Stmt
-	if ls := enclosingLoops(f.Body, appends[0]); len(ls) > 0 {
-		outer = ls[0]
-	}
-	// membership tests: stringtool.StrInSlice(tag, instance.Tags)-like calls returning bool
-	isMember := func(call *ast.CallExpr) bool {
-		fo, ok := f.Callee(call).(*types.Func)
-		if !ok || fo.Pkg() == nil {
-			return false
-		}
-		sig := fo.Type().(*types.Signature)
-		if sig.Results().Len() != 1 || !types.Identical(sig.Results().At(0).Type(), types.Typ[types.Bool]) {
-			return false
-		}
-		if len(call.Args) != 2 {
-			return false
-		}
-		t0, t1 := f.Info.Types[call.Args[0]].Type, f.Info.Types[call.Args[1]].Type
-		if t0 == nil || t1 == nil {
-			return false
-		}
-		sl, ok := t1.Underlying().(*types.Slice)
-		return ok && types.Identical(sl.Elem(), t0) && types.Identical(t0, types.Typ[types.String])
-	}
-	var members []*ast.CallExpr
-	for _, call := range calls(f.Body, false) {
-		if isMember(call) {
-			members = append(members, call)
-		}
-	}
-	assignsList := func(n ast.Node) (rhs ast.Expr, ok bool) {
-		switch s := n.(type) {
-		case *ast.AssignStmt:
-			if len(s.Lhs) == len(s.Rhs) {
-				for i, l := range s.Lhs {
-					if id, isID := l.(*ast.Ident); isID && c04ObjOf(f.Info, id) == listVar {
-						return s.Rhs[i], true
-					}
-				}
-			}
-		case *ast.ValueSpec:
-			for i, id := range s.Names {
-				if c04ObjOf(f.Info, id) == listVar {
-					if i < len(s.Values) {
-						return s.Values[i], true
-					}
-					return nil, true
-				}
-			}
-		}
-		return nil, false
-	}
-	isFreshEmpty := func(e ast.Expr) bool {
-		if e == nil {
-			return true
-		}
-		e = ast.Unparen(e)
-		if f.Info.Types[e].IsNil() {
-			return true
-		}
-		switch x := e.(type) {
-		case *ast.CompositeLit:
-			return len(x.Elts) == 0
-		case *ast.CallExpr:
-			if b, ok := f.Callee(x).(*types.Builtin); ok && b.Name() == "make" {
-				if len(x.Args) >= 2 {
-					if v := f.Info.Types[x.Args[1]].Value; v != nil && constant.Sign(v) == 0 {
-						return true
-					}
-				}
-			}
-		}
-		return false
-	}
-	type finding struct {
-		at  ast.Node
-		st  *flow.State
-		why string
-	}
-	var badAppend, badAssign *finding
-	res := analyze(c, f, flow.Config{
-		NoHavoc: true,
-		OnBlock: func(st *flow.State, b *cfg.Block) {
-			if outer != nil && b.Stmt == outer && b.Kind == cfg.KindRangeBody {
-				st.Set("ev:appended", flow.False)
-			}
-		},
-		OnNode: func(st *flow.State, n ast.Node) {
-			rhs, ok := assignsList(n)
-			if !ok {
-				return
-			}
-			if call, isCall := ast.Unparen(rhsOrNil(rhs)).(*ast.CallExpr); isCall {
-				for _, a := range appends {
-					if a == call {
-						return // handled in OnCall
-					}
-				}
-			}
-			switch {
-			case isFreshEmpty(rhs):
-				st.Set("ev:filtered", flow.True)
-				st.Set("ev:static", flow.False)
-			case isStatic(rhs):
-				if q.zeroK(st, lenK) {
-					st.Set("ev:static", flow.True)
-					st.Set("ev:filtered", flow.False)
-				} else if badAssign == nil {
-					badAssign = &finding{n, st, "the static server list replaces the filtered list in a state where the filtered list is not known to be empty: instances that service discovery reported and that carry a configured tag are ignored"}
-				}
-			default:
-				if badAssign == nil {
-					badAssign = &finding{n, st, "the list handed to the balancer is assigned from something that is neither the filtered instances nor spec.Servers"}
-				}
-			}
-		},
-		OnCall: func(st *flow.State, call *ast.CallExpr, callee types.Object, deferred bool) {
-			for _, a := range appends {
-				if a != call {
-					continue
-				}
-				matched := false
-				for _, m := range members {
-					if st.Is(f.CallKey(m), flow.True) {
-						matched = true
-					}
-				}
-				if !matched && badAppend == nil {
-					badAppend = &finding{call, st, "an instance is added to the server list without a tag-membership test having succeeded: instances that carry none of the configured serverTags receive traffic"}
-				}
-				if st.Is("ev:appended", flow.True) && badAppend == nil {
-					badAppend = &finding{call, st, "the same instance can be appended more than once (once per matching tag): it then receives a multiple of its share under roundRobin/random"}
-				}
-				st.Set("ev:appended", flow.True)
-			}
-			for _, cr := range creates {
-				if cr == call {
-					st.Set("ev:created", flow.True)
-				}
-			}
-		},
-	})
-	if res == nil {
-		return
-	}
-	if badAppend != nil {
-		c.Violate("R-C04-7", cons+"|append only tagged instances, once", pos(c, badAppend.at), badAppend.why, witness(badAppend.st)...)
-	} else {
-		c.Discharge("R-C04-7", cons+"|append only tagged instances, once", pos(c, appends[0]), sprintf("%d append sites reached only with a membership test true and not yet appended in this iteration", len(appends)))
-	}
-	// argument of createLoadBalancer
-	okArg := badAssign == nil
-	if badAssign != nil {
-		c.Violate("R-C04-7", cons+"|list handed to createLoadBalancer", pos(c, badAssign.at), badAssign.why, witness(badAssign.st)...)
-	}
-	nStates := 0
-	for _, cr := range creates {
-		if !okArg {
-			break
-		}
-		if len(cr.Args) != 1 {
-			c.Undecide("R-C04-7", cons+"|list handed to createLoadBalancer", pos(c, cr), "unexpected arity")
-			okArg = false
-			break
-		}
-		arg := ast.Unparen(cr.Args[0])
-		for _, st := range res.At[cr] {
-			nStates++
-			why := ""
-			if isStatic(arg) {
-				if !q.zeroK(st, lenK) {
-					why = "spec.Servers is published in a state where the filtered list is not known to be empty: qualifying discovered instances are ignored"
-				}
-			} else if id, ok := arg.(*ast.Ident); ok && c04ObjOf(f.Info, id) == listVar {
-				switch {
-				case st.Is("ev:static", flow.True):
-				case st.Is("ev:filtered", flow.True) && q.positiveK(st, lenK):
-				case st.Is("ev:filtered", flow.True):
-					why = "the filtered instance list is published in a state where it may be empty: when no discovered instance carries a configured tag the pool gets an empty list (every request fails with 503) instead of falling back to the static servers"
-				default:
-					why = "cannot relate the published list to the filtered instances or spec.Servers"
-				}
-			} else {
-				why = "the list handed to createLoadBalancer is neither the filtered list nor spec.Servers"
-			}
-			if why != "" {
-				okArg = false
-				c.Violate("R-C04-7", cons+"|list handed to createLoadBalancer", pos(c, cr), why, witness(st)...)
-				break
-			}
-		}
-	}
-	if okArg {
-		c.Check(nStates > 0, "R-C04-7", cons+"|list handed to createLoadBalancer", pos(c, creates[0]),
-			sprintf("%d states at createLoadBalancer: filtered list known non-empty, or spec.Servers with the filtered list known empty", nStates),
-			"createLoadBalancer is unreachable in useService")
-	}
-	// every exit has replaced the balancer
-	var badExit *flow.Exit
-	for _, ex := range res.Exits {
-		if ex.Kind == flow.ExitReturn && !ex.State.Is("ev:created", flow.True) {
-			badExit = ex
-		}
-	}
-	if badExit != nil {
-		c.Violate("R-C04-7", cons+"|every report replaces the balancer", pos(c, badExit.At), "useService can return without installing a balancer for the reported instances: the pool keeps sending to the servers of the previous report", witness(badExit.State)...)
-	} else {
-		c.Discharge("R-C04-7", cons+"|every report replaces the balancer", pos(c, f.Body), sprintf("%d exits, all after createLoadBalancer", len(res.Exits)))
-	}
-}
-
-func rhsOrNil(e ast.Expr) ast.Expr {
-	if e == nil {
-		return &ast.BadExpr{}
-	}
-	return e
 }
 
 // ----------------------------------------------------------------------------------------
